@@ -86,7 +86,75 @@ def strategy_(d, tier):
 
 
 def strategy(tier):
-    return strategy_(tier)
+    from hypothesis import strategies as st
+    return st.integers(0, 99).flatmap(lambda k: synth_case_(tier) if k < 8 else strategy_(tier))
+
+
+# ---------------------------------------------------------------------------------------------------------------
+# synthetic programs: operands the golden corpus does not contain (constants that end in an escaped backslash, that
+# hold semicolons, quotes of the other kind, blanks ...).  Lines are kept as (label, mnemonic, operands); a rendering
+# chooses the irrelevant spelling (comment behind every statement, blanks/tabs between the fields, letter case of the
+# mnemonic, colon behind the label, CR-LF); all renderings must give the code file of the plain one.
+SYNTH = [
+    ("z80", [("", "org", "100h"), ("", "db", '"C:\\\\"'), ("s1", "db", "'a','\\\\',\"x\\\\\\\\\""),
+             ("", "db", '";"'), ("", "db", "';'"), ("s2", "db", '"a;b",1'), ("", "db", '"it\'s"'), ("", "db", "'\"'"),
+             ("", "db", '"a\\"b"'), ("s3", "dw", "'ab'"), ("", "ld", "a,';'"), ("", "ld", "hl,s3"), ("", "db", '"\\\\;"'),
+             ("", "db", '"tab\\there"'), ("s4", "db", '"end\\\\"'), ("", "dw", "s4")]),
+    ("6502", [("", "org", "$200"), ("", "byt", '"dir\\\\"'), ("t1", "byt", "';',\"\\\\\""), ("", "lda", "#';'"),
+              ("", "adr", "t1"), ("t2", "fcc", '"x;y\\\\"'), ("", "byt", "'\\\\'")]),
+    ("68000", [("", "org", "$1000"), ("", "dc.b", '"C:\\\\"'), ("u1", "dc.b", "';','\\\\'"), ("", "dc.w", "u1"),
+               ("", "moveq", "#';',d0"), ("u2", "dc.b", '"a\\"b;c\\\\"')]),
+    ("8051", [("", "org", "100h"), ("", "db", '"p\\\\"'), ("v1", "db", "';'"), ("", "mov", "a,#';'"), ("", "dw", "v1"),
+              ("", "db", '"q;\\\\"')]),
+]
+
+
+@composite
+def synth_case_(d, tier):
+    return dict(synth=d.int(0, len(SYNTH) - 1), cmt=d.int(0, 3), ws=d.int(0, 5), up=d.bool(0.4), colon=d.bool(0.5),
+                crlf=d.bool(0.3))
+
+
+def render_synth(i, cmt=0, ws=0, up=False, colon=False, crlf=False):
+    cpu, lines = SYNTH[i]
+    seps = [" ", "\t", "  ", " \t", "\t\t", "   \t "]
+    out = ["\tcpu " + cpu]
+    for k, (lab, mn, args) in enumerate(lines):
+        s1 = seps[(ws + k) % len(seps)]
+        s2 = seps[(ws + 2 * k + 1) % len(seps)]
+        text = (lab + (":" if colon and lab else "")) + s1 + (mn.upper() if up else mn) + s2 + args
+        if cmt and (k + cmt) % (1 if cmt == 1 else 2) == 0:
+            text += ["", " ; c", "\t;\"c", ";x'"][cmt]
+        out.append(text)
+    return ("\r\n" if crlf else "\n").join(out) + ("\r\n" if crlf else "\n")
+
+
+def execute_synth(case):
+    from vf import asl
+    i = case["synth"]
+    classes = ["synthetic:" + SYNTH[i][0]] + ["synth-" + k for k in ("cmt", "ws", "up", "colon", "crlf") if case.get(k)]
+    key = "synth|%d|%s" % (i, ",".join(classes[1:]))
+    ref = asl.assemble({"t.asm": render_synth(i)})
+    if ref.timed_out:
+        return engine.inconclusive("timeout", classes)
+    if ref.status != 0 or ref.p is None:
+        return engine.bad("synthetic program %d does not assemble in its plain spelling: status %s" % (i, ref.status),
+                          key, classes, stderr=ref.err[-600:], src=render_synth(i))
+    src = render_synth(i, case["cmt"], case["ws"], case["up"], case["colon"], case["crlf"])
+    r = asl.assemble({"t.asm": src})
+    if r.timed_out:
+        return engine.inconclusive("timeout", classes)
+    if r.signal:
+        return engine.bad("asl killed by signal %d on a respelled synthetic program" % r.signal, key, classes, src=src)
+    if r.status != 0 or r.p is None:
+        return engine.bad("respelled synthetic program (%s) no longer assembles: status %s" % (",".join(classes[1:]), r.status),
+                          key, classes, stderr=r.err[-800:], src=src)
+    a = [x for x in ref.records() if x["kind"] != "creator"]
+    b = [x for x in r.records() if x["kind"] != "creator"]
+    if a != b:
+        return engine.bad("code file of the respelled synthetic program (%s) differs from the plain spelling"
+                          % ",".join(classes[1:]), key, classes, src=src)
+    return engine.ok(key, classes)
 
 
 def effective(case):
@@ -107,6 +175,8 @@ def effective(case):
 
 
 def execute(case):
+    if "synth" in case:
+        return execute_synth(case)
     name = case["test"]
     t = corpus.load(name)
     edits, flags = effective(case)
@@ -151,6 +221,11 @@ def show(case):
 
 def fixed_cases(tier):
     out = []
+    for i in range(len(SYNTH)):
+        for cmt in (1, 2, 3):
+            for ws in (0, 1, 3):
+                out.append(dict(synth=i, cmt=cmt, ws=ws, up=bool(ws & 1), colon=bool(cmt & 1), crlf=(ws == 3)))
+        out.append(dict(synth=i, cmt=0, ws=5, up=True, colon=True, crlf=False))
     for n in corpus.names():
         # every kind on every understood line; then the whole-file flags one by one
         out.append(dict(test=n, edits=[[k, 1, 0, 2] for k in KINDS if k != "cmtdel"], flags=dict(crlf=False, include=False, macro=False)))
